@@ -19,20 +19,36 @@ import sys
 import textwrap
 
 
-def lean_str(s: str) -> str:
-    """A Lean term of type `Str` (= List Char) for a Python str."""
+_POOL = {}
+
+
+def lean_chars(s: str) -> str:
+    """A Lean term of type `Str` (= List Char): an explicit character list (kernel-friendly:
+    `"..".toList` costs ~40 ms per literal in `decide +kernel`)."""
     out = []
     for ch in s:
         o = ord(ch)
-        if ch == '"':
-            out.append('\\"')
+        if ch == "'":
+            out.append("'\\''")
         elif ch == "\\":
-            out.append("\\\\")
+            out.append("'\\\\'")
         elif 32 <= o < 127:
-            out.append(ch)
+            out.append("'" + ch + "'")
         else:
-            out.append("\\u{%x}" % o)
-    return '"' + "".join(out) + '".toList'
+            out.append("'\\u{%x}'" % o)
+    return "[" + ", ".join(out) + "]"
+
+
+def lean_str(s: str) -> str:
+    """Interned reference to a `Str` constant (emitted once per file by `pool_defs`)."""
+    if s not in _POOL:
+        _POOL[s] = f"s{len(_POOL)}"
+    return _POOL[s]
+
+
+def pool_defs(names=None) -> str:
+    items = [(v, k) for k, v in _POOL.items()] if names is None else names
+    return "\n".join(f"def {ident} : Str := {lean_chars(text)}" for ident, text in items)
 
 
 def lean_list(items, per_line=0) -> str:
@@ -251,13 +267,14 @@ def extract(repo: str):
                        if any(h in vars(b) for b in cls.__mro__ if b not in (Aggregate, ElementList, list, object)))
         props = sorted(n for b in cls.__mro__ if b not in (list, object)
                        for n, v in vars(b).items() if isinstance(v, property) and not n.startswith("_"))
+        ancestors = [index[b] for b in cls.__mro__[1:] if b in index]
         lean_cls.append(
-            "  { name := %s, exported := %s,\n    spec := %s,\n    optMutex := %s, reqMutex := %s,\n"
+            "  { name := %s, exported := %s, abstract := %s, ancestors := %s,\n    spec := %s,\n    optMutex := %s, reqMutex := %s,\n"
             "    declOptMutex := %s, declReqMutex := %s,\n    elementList := %s, extra := ExtraRule.%s, groom := %s, ungroom := %s }"
-            % (lean_str(cls.__name__), lean_bool(exported), lean_list(spec_l), lean_mut(eff_opt), lean_mut(eff_req),
+            % (lean_str(cls.__name__), lean_bool(exported), lean_bool(not name.isupper()), lean_list([str(x) for x in ancestors]), lean_list(spec_l), lean_mut(eff_opt), lean_mut(eff_req),
                lean_mut(decl_opt), lean_mut(decl_req), lean_bool(is_el), extra, lean_rename(g), lean_rename(u)))
         json_cls.append({
-            "idx": i, "name": cls.__name__, "exported": exported, "spec": spec_j,
+            "idx": i, "name": cls.__name__, "exported": exported, "spec": spec_j, "ancestors": ancestors,
             "opt_mutex": eff_opt, "req_mutex": eff_req, "decl_opt_mutex": decl_opt, "decl_req_mutex": decl_req,
             "element_list": is_el, "extra": extra, "groom": g, "ungroom": u,
             "hooks": hooks, "props": props, "module": cls.__module__,
@@ -275,13 +292,17 @@ def extract(repo: str):
     enum_defs = "\n\n".join(f"def enum{i} : List Str := {lean_list([lean_str(v) for v in e])}" for i, e in enumerate(enums))
     schema_lean = (
         "/- GENERATED by harness/translate.py from the imported ofxtools.models — do not edit. -/\n"
-        "import OfxModel.Ofx.Schema\n\nnamespace Ofx.Generated\nopen Ofx\n\n"
+        "import OfxModel.Ofx.Schema\n\nnamespace Ofx.Generated.SchemaData\nopen Ofx\n\n"
+        + "SCHEMA_POOL_PLACEHOLDER\n\n"
         + enum_defs + "\n\n"
         "def enumTables : List (List Str) :=\n  " + chunks([f"enum{i}" for i in range(len(enums))]) + "\n\n"
         + cls_defs + "\n\n"
         "def classTable : List Cls :=\n  " + chunks([f"cls{i}" for i in range(len(lean_cls))]) + "\n\n"
-        "def schema : Schema := { classes := classTable, enums := enumTables }\n\n"
+        "end Ofx.Generated.SchemaData\n\nnamespace Ofx.Generated\nopen Ofx\n\n"
+        "def schema : Schema := { classes := SchemaData.classTable, enums := SchemaData.enumTables }\n\n"
         "end Ofx.Generated\n")
+    schema_lean = schema_lean.replace("SCHEMA_POOL_PLACEHOLDER", pool_defs())
+    _POOL.clear()
 
     # ---------------- tables ----------------
     import unicodedata
@@ -324,7 +345,7 @@ def extract(repo: str):
 
     tables_lean = (
         "/- GENERATED by harness/translate.py from the running interpreter and the imported ofxtools — do not edit. -/\n"
-        "import OfxModel.Proto\n\nnamespace Ofx.Generated\nopen Ofx\n\n"
+        "import OfxModel.Proto\n\nnamespace Ofx.Generated\nopen Ofx\n\nnamespace TablesData\nTABLES_POOL_PLACEHOLDER\nend TablesData\nopen TablesData\n\n"
         "/-- keys of `ofxtools.lib.NUMBERING_AGENCIES`, in dict order -/\n"
         f"def numberingAgencies : List Str := {lean_list([lean_str(a) for a in agencies])}\n\n"
         "/-- code points for which `str.isspace()` is true -/\n"
@@ -344,6 +365,9 @@ def extract(repo: str):
         "/-- class-level validators of `OFXHeaderV2` in definition order -/\n"
         f"def headerV2Fields : List (Str × HField) := {lean_list([f'({lean_str(k)}, {lean_hfield(d)})' for k, d in hp['OFXHeaderV2'].items()])}\n\n"
         "end Ofx.Generated\n")
+
+    tables_lean = tables_lean.replace("TABLES_POOL_PLACEHOLDER", pool_defs())
+    _POOL.clear()
 
     # fingerprints of hand-modelled code
     from ofxtools import Parser, Client
